@@ -274,11 +274,29 @@ fn c17_contract_delta_angle_degrees_i32() { wd_i32::delta_angle_degrees(kani::an
 fn c17_contract_delta_angle_degrees_i32_safe_region() { wd_i32::delta_angle_degrees_safe(kani::any(), kani::any()); }
 
 // ---- EXPERIMENT bounded ----
-macro_rules! c17_small_period { ($v:expr, $lo:expr, $hi:expr, $max:expr) => { ($hi - $lo <= 255) } }
-macro_rules! c17_sint_safe_small_period { ($v:expr, $lo:expr, $hi:expr, $max:expr) => { ($hi - $lo <= 255 && c17_sint_safe!($v, $lo, $hi, $max)) } }
-c17_wrap_contracts!(ty: u32, any: kani::any(), wrappers: wb_u32, region: c17_small_period,
-    wrapped: c17_x_wrapped_u32_small_period, wrapped_between: c17_x_wrapped_between_u32_small_period, pingpong: c17_x_pingpong_u32_small_period);
-c17_wrap_contracts!(ty: i32, any: kani::any(), wrappers: wb_i32, region: c17_sint_safe_small_period,
-    wrapped: c17_x_wrapped_i32_small_period, wrapped_between: c17_x_wrapped_between_i32_small_period, pingpong: c17_x_pingpong_i32_small_period);
-c17_wrap_contracts!(ty: u64, any: kani::any(), wrappers: wb_u64, region: c17_small_period,
-    wrapped: c17_x_wrapped_u64_small_period, wrapped_between: c17_x_wrapped_between_u64_small_period, pingpong: c17_x_pingpong_u64_small_period);
+macro_rules! c17_small_all { ($v:expr, $lo:expr, $hi:expr, $max:expr) => { ($hi <= 4095 && -4096 <= $v && $v <= 4095) } }
+c17_wrap_contracts!(ty: u32, any: kani::any(), wrappers: wb_u32, region: c17_small_all,
+    wrapped: c17_x_wrapped_u32_small, wrapped_between: c17_x_wrapped_between_u32_small, pingpong: c17_x_pingpong_u32_small);
+c17_wrap_contracts!(ty: i32, any: kani::any(), wrappers: wb_i32, region: c17_small_all,
+    wrapped: c17_x_wrapped_i32_small, wrapped_between: c17_x_wrapped_between_i32_small, pingpong: c17_x_pingpong_i32_small);
+c17_wrap_contracts!(ty: i64, any: kani::any(), wrappers: wb_i64, region: c17_small_all,
+    wrapped: c17_x_wrapped_i64_small, wrapped_between: c17_x_wrapped_between_i64_small, pingpong: c17_x_pingpong_i64_small);
+#[kani::proof]
+fn c17_x_const_period_i32() {
+    let v: i32 = kani::any();
+    let i: usize = kani::any(); kani::assume(i < 6);
+    let u = [1, 2, 3, 10, 65536, i32::MAX][i];
+    kani::assume(c17_sint_safe!(v.w(), 0, u.w(), i32::MAX as i64));
+    let r = ww_i32::wrapped(v, u);
+    assert!(0 <= r && r < u);
+    assert!((v.w() - r.w()) % u.w() == 0);
+}
+#[kani::proof]
+fn c17_x_const_period_u64() {
+    let v: u64 = kani::any();
+    let i: usize = kani::any(); kani::assume(i < 6);
+    let u = [1, 2, 3, 10, 65536, u64::MAX][i];
+    let r = v.wrapped(u);
+    assert!(r < u);
+    assert!((v.w() - r.w()) % u.w() == 0);
+}
